@@ -253,7 +253,10 @@ func (g *generator) generateFlow(file *file, f *flow, w io.Writer, addImports ma
 	}); err != nil {
 		return err
 	}
-	if _, err := io.WriteString(w, "func() (err error) {\n"); err != nil {
+	// The user's expressions are evaluated in an outer function literal,
+	// before the literal that declares the named result err: an expression
+	// that mentions a variable called err must see the user's variable.
+	if _, err := io.WriteString(w, "func() error {\n"); err != nil {
 		return err
 	}
 
@@ -267,6 +270,9 @@ func (g *generator) generateFlow(file *file, f *flow, w io.Writer, addImports ma
 	if err := prologueTmpl.ExecuteTemplate(w, _paramExprTmpl, paramExprs(exprs)); err != nil {
 		return err
 	}
+	if _, err := io.WriteString(w, "return func() (err error) {\n"); err != nil {
+		return err
+	}
 	if _, err := w.Write(b.Bytes()); err != nil {
 		return err
 	}
@@ -278,7 +284,7 @@ func (g *generator) generateFlow(file *file, f *flow, w io.Writer, addImports ma
 		fmt.Fprintf(w, "/*line %v:%d*/", filepath.Base(f.PosInfo.File), endPos.Line-1)
 	}
 
-	if _, err := io.WriteString(w, "}()"); err != nil {
+	if _, err := io.WriteString(w, "}()\n}()"); err != nil {
 		return err
 	}
 	return nil
